@@ -20,7 +20,7 @@ from vlib import Result, enc_list, f2b, Toks, close
 
 PROP = 'C12'
 META = {
-    'level_text': 'Lean 4 theorems about definitions REGENERATED from the kawin sources on every run (concolic trace of computeGibbsThomsonContribution, volumetricDrivingForce, nucleationBarrier, _growthRateOutputFromCurvature, PrecipitateModel._singleGrowthMulti and _singleGrowthBinary) and about a hand model (Model/ICScan.lean) of the sentinel loop of _interfacialCompositionFromEq, of RdrivingForceIndex / the prefix fill of _createLookupBinary and of the Rmin clamp: the Gibbs-Thomson energy at the unclamped critical radius equals the chemical driving force (dG - gExtra(Rcrit) = 0, with strain energy and shape factor); the multicomponent growth rate as the KWN model evaluates it is positive above, negative below and zero at Rcrit for mc > 0, kinetic factor > 0 (after the repair of the strain-energy double count, see known_findings); clamp made explicit (classes between 2f*gamma/dGvol and Rmin grow although they are below the recorded Rcrit, with witness); binary growth sign = sign(x - x_alpha_i); binary conditional: IF DF(x_alpha(g)) = g (+ offset) and DF is monotone (or x_alpha strictly increasing and x in its range) THEN classes above Rcrit grow and below shrink; sentinel scan: entry g = first two-phase record at GE index g, -1 iff none (records ordered by GE index; necessity of the ordering shown by witness), monotone instability pattern preserved, RdrivingForceIndex = last index of the unstable prefix (and = 0 for the empty and for the FULL prefix, the latter making the all-unstable branch unreachable - stated as theorem). Generated definitions are validated numerically against the Python functions on every run; the hand model is tied by differential correspondence on real pycalphad equilibrium records and synthetic patterns run through the real loop.',
+    'level_text': 'PARTLY DECIDED BY PROOF (Gibbs-Thomson/critical-radius consistency, both growth laws, clamp, sentinel scan; that x_alpha(g) inverts the driving force, monotonicity and agreement of the four methods are thermodynamics of the backend: explicit hypotheses of the theorems, only monitored by the oracle). Lean 4 theorems about definitions REGENERATED from the kawin sources on every run (concolic trace of computeGibbsThomsonContribution, volumetricDrivingForce, nucleationBarrier, _growthRateOutputFromCurvature, PrecipitateModel._singleGrowthMulti and _singleGrowthBinary) and about a hand model (Model/ICScan.lean) of the sentinel loop of _interfacialCompositionFromEq, of RdrivingForceIndex / the prefix fill of _createLookupBinary and of the Rmin clamp: the Gibbs-Thomson energy at the unclamped critical radius equals the chemical driving force (dG - gExtra(Rcrit) = 0, with strain energy and shape factor); the multicomponent growth rate as the KWN model evaluates it is positive above, negative below and zero at Rcrit for mc > 0, kinetic factor > 0 (after the repair of the strain-energy double count, see known_findings); clamp made explicit (classes between 2f*gamma/dGvol and Rmin grow although they are below the recorded Rcrit, with witness); binary growth sign = sign(x - x_alpha_i); binary conditional: IF DF(x_alpha(g)) = g (+ offset) and DF is monotone (or x_alpha strictly increasing and x in its range) THEN classes above Rcrit grow and below shrink; sentinel scan: entry g = first two-phase record at GE index g, -1 iff none (records ordered by GE index; necessity of the ordering shown by witness), monotone instability pattern preserved, RdrivingForceIndex = last index of the unstable prefix (and = 0 for the empty and for the FULL prefix, the latter making the all-unstable branch unreachable - stated as theorem). Generated definitions are validated numerically against the Python functions on every run; the hand model is tied by differential correspondence on real pycalphad equilibrium records and synthetic patterns run through the real loop.',
     'level_note': 'MONITORED ONLY (oracle on the real implementation, no theorem - these are thermodynamic facts about pycalphad + the TDB files): the hypotheses of the binary conditional themselves, i.e. x_alpha(g) is the composition at which the driving force equals g within the documented 1 J/mol offset, the driving force changes sign at the planar solvus and increases with supersaturation, x_alpha(g) rises monotonically with g, the sentinel is monotone in g, the four driving-force methods agree in sign away from the solvus and tangent/approximate/sampling agree in value to the offset for stoichiometric Al3Zr (the curvature method is a first-order expansion: value agreement only near the solvus, recorded finding), and "classes above pData.Rcrit grow, below shrink" at observer callbacks of real Al-Zr and Ni-Cr-Al runs. The proved part is algebra about the traced formulas plus the scan logic; the thermodynamic core of the property is not provable here and is only sampled. Trusted: Lean kernel + Mathlib (propext, Classical.choice, Quot.sound); the tracer tools/py2lean/sym.py (output re-validated numerically on every run); exact field arithmetic instead of IEEE doubles; pycalphad Workspace / enumerate_composition_sets is an input of the scan model (its records are captured, not modelled).',
     'technique': 'Lean 4 proof over ordered fields about source-regenerated definitions + translator validation + model/implementation differential correspondence on captured equilibrium records + direct oracle on thermodynamic grids and run observers',
     'design_ref': 'DESIGN.md section 6, C12',
@@ -83,6 +83,45 @@ def _vars_of(node, acc=None, seen=None):
         if hasattr(a, 'op'):
             _vars_of(a, acc, seen)
     return acc
+
+
+class _StopTrace(Exception):
+    pass
+
+
+def trace_calc_nucleation(NR, KE, make_prec, dG_value, item, Rprev=0.0, model=None):
+    """run the REAL PrecipitateBase._calcNucleationRate on a real model object (thermodynamics replaced by a stand-in that
+    returns dG_value()) up to and including its call of nucleationBarrier; returns (Rcrit it obtained, recorded Y.drivingForce)"""
+    NS = types.SimpleNamespace
+    if model is None:
+        with warnings.catch_warnings():
+            warnings.simplefilter('ignore')
+            model = KE.PrecipitateModel(phases=['P'], elements=['A', 'B'])
+    model.precipitateParameters[0] = make_prec()
+    model.removeCache = False
+    model.pData.Rcrit[model.pData.n, 0] = Rprev
+    keep = getattr(model, 'therm', None)
+    model.therm = NS(numElements=3, getDrivingForce=lambda x, T, precPhase=None, removeCache=False, **k: (dG_value(), np.array([[0.2, 0.1]])))
+    Y = NS(composition=[np.array([0.08, 0.1])], temperature=[1073.0], drivingForce=np.empty((1, 1), dtype=object),
+           Rcrit=np.empty((1, 1), dtype=object), Gcrit=np.empty((1, 1), dtype=object), impingement=np.empty((1, 1), dtype=object),
+           nucRate=np.empty((1, 1), dtype=object), Rnuc=np.empty((1, 1), dtype=object))
+    cap = []
+    orig = NR.nucleationBarrier
+
+    def rec(*a, **k):
+        cap.append(orig(*a, **k))
+        raise _StopTrace()
+    NR.nucleationBarrier = rec
+    try:
+        model._calcNucleationRate(1.0, [np.zeros(model.PBM[0].bins)], Y)
+    except _StopTrace:
+        pass
+    finally:
+        NR.nucleationBarrier = orig
+        model.therm = keep
+    if not cap:
+        return None, item(Y.drivingForce[0, 0])
+    return item(cap[0][0]), item(Y.drivingForce[0, 0])
 
 
 # =====================================================================================================
@@ -154,13 +193,17 @@ def regenerate(ctx):
     ars = []
 
     class SymDescription(SF.NeedleDescription):
+        # like the real descriptions: the factors are 1 at aspect ratio <= 1 and a function of the aspect ratio above;
+        # f / kf stand for the values at the configured (constant) aspect ratio 2.5
         def thermoFactor(self, ar):
-            ars.append(('thermo', float(np.asarray(ar, dtype=float).reshape(-1)[0])))
-            return V('f', 1.3)
+            a = float(np.asarray(ar, dtype=float).reshape(-1)[0])
+            ars.append(('thermo', a))
+            return V('f', 1.3) if a == 2.5 else Sym.const(1) if a <= 1 else V('f_at_other_aspect_ratio', 1.2)
 
         def kineticFactor(self, ar):
-            ars.append(('kinetic', float(np.asarray(ar, dtype=float).reshape(-1)[0])))
-            return V('kf', 1.1)
+            a = float(np.asarray(ar, dtype=float).reshape(-1)[0])
+            ars.append(('kinetic', a))
+            return V('kf', 1.1) if a == 2.5 else Sym.const(1) if a <= 1 else V('kf_at_other_aspect_ratio', 1.05)
 
         def normalRadii(self, ar):
             ars.append(('radii', float(np.asarray(ar, dtype=float).reshape(-1)[0])))
@@ -174,7 +217,7 @@ def regenerate(ctx):
 
         def compute(r):
             radii_seen.append(r)
-            return V('E', 2e7)
+            return V('E', 2e7) if r == ('normalRadii', 2.5) else V('E_at_other_aspect_ratio', 1.9e7)
         p.strainEnergy.compute = compute
         p._radii_seen = radii_seen
         p.gamma = V('gamma', 0.2)
@@ -228,6 +271,18 @@ def regenerate(ctx):
         emit('gcrit', ['gamma', 'Rc'], Sym(gA, GcA.val), 'nucleationBarrier, bulk/dislocation branch: Gcrit as a function of the clamped Rcrit')
         if not (ar_gt == ar_vol == ar_nb and len(ar_gt) == 1):
             raise RuntimeError('constant aspect ratio: the factors were asked at different aspect ratios: %s %s %s' % (ar_gt, ar_vol, ar_nb))
+        # ------------------------------------------------------------ the critical radius the KWN model records
+        out.append('/-! ### PrecipitateBase._calcNucleationRate (KWNBase.py), traced on a real model object up to the call of\n'
+                   'nucleationBarrier: the critical radius it nucleates at and stores in pData.Rcrit, as a function of the CHEMICAL\n'
+                   'driving force dG returned by the thermodynamics (f, E at the constant aspect ratio of the precipitate) -/\n\n')
+        Rk, volk = trace_calc_nucleation(NR, KE, make_prec, lambda: arr('dG', 900.0), item)
+        pc = path()
+        if pc != [('lt', False), ('gt', True), ('ge', True)]:
+            raise RuntimeError('_calcNucleationRate: guards changed: %s (expected volDG < 0, dGv > 0, amax(proposal, Rmin))' % pc)
+        if volk.node is not item(vol).node:
+            raise RuntimeError('_calcNucleationRate no longer records the volumetric driving force of volumetricDrivingForce')
+        del ars[:]
+        emit('rcritKWN', ['f', 'gamma', 'dG', 'Vm', 'E'], Rk, '_calcNucleationRate: critical radius handed on and recorded (unclamped path)')
     finally:
         NR.np = saved_np
         del sym.PATH[:]
@@ -395,7 +450,19 @@ def eval_formula_case(c):
     chem, vol, _ = NR.volumetricDrivingForce(therm, 0.004, 700.0, p, ar_nuc)
     o['chem'], o['vol'] = float(chem), float(vol)
     Rc, Gc = NR.nucleationBarrier(vol, p, ar_nuc)
-    o['Rcrit'], o['Gcrit'] = float(Rc), float(Gc)
+    o['Rcrit_direct'], o['Gcrit'] = float(Rc), float(Gc)
+    # the critical radius and driving force as the KWN model obtains and records them: the REAL _calcNucleationRate on a real
+    # model object (stand-in thermodynamics returning dG), up to and including its call of nucleationBarrier
+    try:
+        rk, vk = trace_calc_nucleation(NR, KE, lambda: p, lambda: np.array([c['dG']]), lambda v: float(np.asarray(v, dtype=float).reshape(-1)[0]),
+                                       Rprev=c['Rprev'], model=_model('multi'))
+        o['Rcrit'] = o['Rcrit_direct'] if rk is None else rk          # rk None: volDG < 0, nothing recorded
+        o['Rcrit_kwn'] = rk
+        o['vol_kwn'] = vk
+    except Exception as e:
+        import traceback
+        o['Rcrit'] = o['Rcrit_direct']; o['Rcrit_kwn'] = None; o['vol_kwn'] = None
+        o.setdefault('raised', []).append(('_calcNucleationRate', e, traceback.format_exc()))
     o['f_nuc'] = float(p.shapeFactor.description.thermoFactor(ar_nuc))
     o['E_nuc'] = float(p.strainEnergy.compute(p.shapeFactor.description.normalRadii(ar_nuc)))
     # radii: relative to the unclamped critical radius when there is one
@@ -482,6 +549,8 @@ def check_formula_cases(ctx, res, cases, use_driver=True):
             lines.append('gen.gt %s' % ' '.join(f2b(v) for v in (c['Vm'], o['E_R'][j], o['f'][j], c['gamma'], o['R'][j], c['dG'])))
         sl['rc'] = len(lines)
         lines.append('ic.rcrit %s' % ' '.join(f2b(v) for v in (o['f_nuc'], c['gamma'], o['vol'], c['Rmin'])))
+        sl['rckwn'] = len(lines)
+        lines.append('gen.rckwn %s' % ' '.join(f2b(v) for v in (o['f_nuc'], c['gamma'], c['dG'], c['Vm'], o['E_nuc'])))
         sl['multi'] = len(lines)
         for j in range(nR):
             lines.append('gen.multi %s' % ' '.join(f2b(v) for v in (c['mc'], o['R'][j], c['dG'], o['gExtra'][j])))
@@ -534,9 +603,17 @@ def check_formula_cases(ctx, res, cases, use_driver=True):
                 if o['growthBinary'] is not None and (b is None or not close(b[0], o['S'][j], 1e-9, 1e-300) or not (close(b[1], o['growthBinary'][j], 1e-9) or (o['eff'][j] == 0))):
                     res.disagree('gen superSat/growthBinary vs _singleGrowthBinary', dict(desc, j=j), [o['S'][j], o['growthBinary'][j]], b)
             r = mflts(sl['rc'])
-            if r is None or not close(r[0], o['Rcrit'], 1e-12) or not close(r[1], o['Gcrit'], 1e-9):
-                res.disagree('model rcritUsed/gcrit vs nucleationBarrier', desc, [o['Rcrit'], o['Gcrit']], r)
+            if r is None or not close(r[0], o['Rcrit_direct'], 1e-12) or not close(r[1], o['Gcrit'], 1e-9):
+                res.disagree('model rcritUsed/gcrit vs nucleationBarrier', desc, [o['Rcrit_direct'], o['Gcrit']], r)
+            if o['Rcrit_kwn'] is not None and not close(r[0] if r else math.nan, o['Rcrit_kwn'], 1e-12):
+                res.disagree('model rcritUsed vs the critical radius obtained inside _calcNucleationRate', desc, o['Rcrit_kwn'], r)
+            if unclamped and o['Rcrit_kwn'] is not None:
+                v = mflt(sl['rckwn'])
+                if v is None or not close(v, o['Rcrit_kwn'], 1e-9, 2 * o['f_nuc'] * c['gamma'] / max(abs(c['dG'] / c['Vm']), abs(c['E'])) ):
+                    res.disagree('gen rcritKWN vs _calcNucleationRate', desc, o['Rcrit_kwn'], v)
         # ------------------------------------------------ direct oracle (real values only)
+        if o['vol_kwn'] is not None and not close(o['vol_kwn'], o['vol'], 1e-12, abs(c['E'])):
+            res.violate('recorded-driving-force', '_calcNucleationRate records a driving force different from volumetricDrivingForce at the nucleation aspect ratio', desc, o['vol_kwn'], o['vol'])
         if o['vol'] > 0:
             if o['Rcrit'] < c['Rmin'] * (1 - 1e-12):
                 res.violate('rcrit-below-rmin', 'recorded critical radius below Rmin', desc, o['Rcrit'], c['Rmin'])
@@ -546,7 +623,7 @@ def check_formula_cases(ctx, res, cases, use_driver=True):
         if unclamped:
             # Gibbs-Thomson at the critical radius
             if not close(o['gExtra_at_Rcrit'], c['dG'], 1e-9, abs(c['Vm'] * c['E'])):
-                res.violate('gibbs-thomson-at-rcrit:' + ('E>0' if c['E'] else 'E=0'),
+                res.violate('gibbs-thomson-at-rcrit:' + ('E>0' if c['E'] else 'E=0') + (':nonspherical' if o['f_nuc'] != 1 else ''),
                             'Gibbs-Thomson energy of a particle of the critical radius differs from the chemical driving force', desc,
                             o['gExtra_at_Rcrit'], c['dG'])
             for j in range(nR):
@@ -589,7 +666,7 @@ def check_formula_cases(ctx, res, cases, use_driver=True):
         res.count('formula:implementation-raised', len(raised))
         res.extra.setdefault('part_errors', []).append({'part': 'formula:' + raised[0][0], 'count': len(raised), 'error': raised[0][2][-1500:]})
         print('C12: %d formula sub-call(s) raised, first:\n%s' % (len(raised), raised[0][2]), file=sys.stderr)
-        if not res.violations:
+        if not _new_violations(res):
             raise raised[0][1]
     return res
 
@@ -974,6 +1051,9 @@ def run_case(ctx, res, cfg):
             from kawin.precipitation import VolumeParameter
             m.setVolumeBeta((0.352e-9) ** 3 * vb, VolumeParameter.ATOMIC_VOLUME, 4)
     pp = m.precipitateParameters[0]
+    if cfg.get('schedule'):
+        kind, T1, T2, ts = cfg['schedule']
+        m.setTemperature((lambda t: T1 if t < ts else T2) if kind == 'step' else (lambda t: T1 + (T2 - T1) * min(t / ts, 1.0)))
     if abs(pp.volume.Vm / m.matrixParameters.volume.Vm - vb) > 1e-9 * vb:
         raise RuntimeError('run_case: molar volume ratio not as configured')
     if cfg.get('shape'):
@@ -983,7 +1063,9 @@ def run_case(ctx, res, cfg):
     with warnings.catch_warnings():
         warnings.simplefilter('ignore')
         with np.errstate(all='ignore'):
-            steps = kwnruns.run(m, cfg['time'], max_steps=cfg['steps'], observer=make_observer(res, cfg['kind'] + (':E>0' if cfg.get('E') else '') + (':Vb!=Va' if vb != 1.0 else ''), cfg, stats))
+            steps = kwnruns.run(m, cfg['time'], max_steps=cfg['steps'], observer=make_observer(res, cfg['kind'] + (':E>0' if cfg.get('E') else '') + (':Vb!=Va' if vb != 1.0 else '')
+                                                                                 + (':' + cfg['shape'] if cfg.get('shape') else '')
+                                                                                 + (':T-%s-%s' % (cfg['schedule'][0], 'down' if cfg['schedule'][2] < cfg['schedule'][1] else 'up') if cfg.get('schedule') else ''), cfg, stats))
     res.traces += 1
     res.case(('run', repr(sorted(cfg.items()))), stats['states'] > 0)
     for k, v in stats.items():
@@ -1001,6 +1083,17 @@ def part_runs(ctx, res):
                      vbeta_over_valpha=r.uniform(1.1, 1.3)))
     cfgs.append(dict(kind='ternary', x0=(0.098, 0.083), T=1073.0, gamma=0.023, time=1e4, steps=ctx.n(12, 80), vbeta_over_valpha=r.uniform(0.75, 0.9)))
     cfgs.append(dict(kind='binary', x0=4e-3, T=723.15, gamma=0.1, time=3600, steps=ctx.n(60, 400), vbeta_over_valpha=r.uniform(1.05, 1.2)))
+    # non-spherical precipitates through the real _calcNucleationRate path (recorded Rcrit vs the zero of model.growth)
+    cfgs.append(dict(kind='binary', x0=4e-3, T=723.15, gamma=0.1, time=3600, steps=ctx.n(60, 400), shape=r.choice(['needle', 'plate', 'cubic']),
+                     ar=r.uniform(1.6, 3.0), E=r.choice([0.0, 2e7])))
+    cfgs.append(dict(kind='ternary', x0=(0.098, 0.083), T=1073.0, gamma=0.023, time=1e4, steps=ctx.n(12, 80), shape=r.choice(['needle', 'plate', 'cubic']),
+                     ar=r.uniform(1.6, 3.0)))
+    # non-isothermal binary runs: the lookup table of interfacial compositions has to follow the temperature in both directions
+    Thi, Tlo = r.uniform(760, 780), r.uniform(665, 690)
+    cfgs.append(dict(kind='binary', x0=2e-3, T=Thi, gamma=0.15, time=0.4, steps=ctx.n(60, 200), schedule=('step', Thi, Tlo, 0.2)))
+    cfgs.append(dict(kind='binary', x0=2e-3, T=Tlo, gamma=0.15, time=0.4, steps=ctx.n(60, 200), schedule=('step', Tlo, Thi, 0.2)))
+    cfgs.append(dict(kind='binary', x0=2e-3, T=Thi, gamma=0.15, time=40.0, steps=ctx.n(9, 40), schedule=('ramp', Thi, Thi - r.uniform(30, 50), 30.0)))
+    cfgs.append(dict(kind='binary', x0=2e-3, T=Tlo, gamma=0.15, time=40.0, steps=ctx.n(9, 40), schedule=('ramp', Tlo, Tlo + r.uniform(30, 50), 30.0)))
     if ctx.thorough:
         for _ in range(3):
             cfgs.append(dict(kind='binary', x0=10 ** r.uniform(-2.7, -2.2), T=r.uniform(650, 760), gamma=r.uniform(0.07, 0.14), time=3600 * 3, steps=600,
@@ -1066,8 +1159,13 @@ def _guard(errors, res, name, fn):
 def _finish(errors, res):
     """no failing input found by the parts that ran, but a part raised: hand the exception to vcheck (it records the broken
     obligation and starts the search); with a failing input in hand the violation is what gets reported"""
-    if errors and not res.violations:
+    if errors and not _new_violations(res):
         raise errors[0][1]
+
+
+def _new_violations(res):
+    known = vlib.load_findings().get(PROP, {})
+    return [v for v in res.violations if v['key'] not in known]
 
 
 _CUTI = []
@@ -1117,7 +1215,7 @@ def replay(ctx, entry):
     if all(k in c for k in keys):
         check_formula_cases(ctx, res, [{k: c[k] for k in keys}], use_driver=False)
     elif 'kind' in c and 'steps' in c:
-        cfg = {k: c[k] for k in ('kind', 'x0', 'T', 'gamma', 'time', 'steps', 'site', 'shape', 'ar', 'E', 'vbeta_over_valpha') if k in c}
+        cfg = {k: c[k] for k in ('kind', 'x0', 'T', 'gamma', 'time', 'steps', 'site', 'shape', 'ar', 'E', 'vbeta_over_valpha', 'schedule') if k in c}
         if isinstance(cfg['x0'], list):
             cfg['x0'] = tuple(cfg['x0'])
         run_case(ctx, res, cfg)
